@@ -44,11 +44,33 @@ class TowerOps:
         return t_is_zero(x)
 
 
-def choose_degree(k, maxd):
+COST_LIMIT = 1.5e8
+
+
+def choose_degree(k, maxd, logb=1.0):
+    """largest D <= maxd with at most MAX_M monomials and an estimated validator cost
+    (m^3 multiplications of numbers with about D*N*log2(max base) bits) within COST_LIMIT"""
     d = 1
-    while d < maxd and len(lc.mons(k, d + 1)) <= MAX_M:
+    while d < maxd:
+        m = len(lc.mons(k, d + 1))
+        bits = (d + 1) * (m + 3) * max(1.0, logb)
+        if m > MAX_M or m ** 3 * bits * bits > COST_LIMIT:
+            break
         d += 1
     return d
+
+
+def log_base_size(inst):
+    import math
+    big = 1.0
+    for f in inst["F"]:
+        for b, _ in f:
+            z = abs(exppoly.field_to_complex(b, inst["gens"]))
+            if z > 0:
+                big = max(big, abs(math.log2(z)))
+            for q in flat(b):
+                big = max(big, math.log2(max(abs(q.numerator), 1)), math.log2(q.denominator))
+    return big
 
 
 def mon_value(es, vals, gens):
@@ -75,7 +97,7 @@ def build(inst, maxd):
     import sympy as sp
     gens = inst["gens"]
     k = len(inst["names"])
-    D = choose_degree(k, maxd)
+    D = choose_degree(k, maxd, log_base_size(inst))
     Ms = lc.mons(k, D)
     m = len(Ms)
     n0 = inst["n0"]
@@ -246,19 +268,46 @@ def process(ctx, insts, results, tag, maxd):
             inst["status"] = "missing"
             continue
         ready.append(inst)
-    files = []
-    for j, inst in enumerate(ready):
-        body = HEADER + f"Definition c : bool := {coq_term(inst)}.\nEval vm_compute in [c].\n"
-        files.append((f"c07{tag}_{j}", body))
-    out = lib.coq_run_many(ctx, files, timeout=600)
-    for j, inst in enumerate(ready):
-        okc, o = out[f"c07{tag}_{j}"]
-        bl = lib.parse_bool_list(o) if okc else None
-        if bl is None:
-            inst["status"] = "coq-error"
-            inst["coq_error"] = o[-800:]
-        else:
-            inst["status"] = "accepted" if bl[0] else "rejected"
+    def coq_round(batch, tag2, timeout):
+        files = []
+        for j, inst in enumerate(batch):
+            body = HEADER + f"Definition c : bool := {coq_term(inst)}.\nEval vm_compute in [c].\n"
+            files.append((f"c07{tag}{tag2}_{j}", body))
+        out = lib.coq_run_many(ctx, files, timeout=timeout)
+        slow = []
+        for j, inst in enumerate(batch):
+            okc, o = out[f"c07{tag}{tag2}_{j}"]
+            bl = lib.parse_bool_list(o) if okc else None
+            if bl is not None:
+                inst["status"] = "accepted" if bl[0] else "rejected"
+            elif not o.strip():
+                slow.append(inst)  # killed by the time limit: numbers too large at this degree
+            else:
+                inst["status"] = "coq-error"
+                inst["coq_error"] = o[-800:]
+        return slow
+
+    slow = coq_round(ready, "", ctx.pick(150, 400))
+    # time limit hit: decide the instance at a lower degree bound instead (recorded in its sample)
+    for rnd in range(2):
+        again = []
+        for inst in slow:
+            if inst["D"] <= 1:
+                inst["status"] = "undecided-timeout"
+                continue
+            try:
+                build(inst, inst["D"] - 1)
+            except exppoly.Unsupported as e:
+                inst["status"] = "unsupported:" + str(e)[:60]
+                continue
+            inst["degree_lowered"] = True
+            if inst["missing"] is not None:
+                inst["status"] = "missing"
+            else:
+                again.append(inst)
+        slow = coq_round(again, f"r{rnd}", ctx.pick(150, 400)) if again else []
+    for inst in slow:
+        inst["status"] = "undecided-timeout"
     return todo, errs
 
 
@@ -274,11 +323,12 @@ def run(ctx):
         "generated case files evaluated by vm_compute in the kernel (no extraction)",
     ]
     ctx.assumptions += [
-        "PARTIAL: completeness is decided only for polynomials of total degree <= D (quick: D = largest degree <= 4 with at most 15 monomials, i.e. D = 4 for 2 goals, 2 for 3-4 goals; thorough: <= 6 with at most 21 monomials); relations of higher degree are not covered",
+        "PARTIAL: completeness is decided only for polynomials of total degree <= D (quick: the largest D <= 4 with at most 15 monomials and a bounded validator cost: D = 4 or 3 for 2 goals, 2 for 3-4 goals; thorough: <= 6 with at most 21 monomials; the D used per instance is in degree_histogram); relations of higher degree are not covered",
         "the goal sequences are the closed forms past the special cases (C04/C01); inputs are sampled",
     ]
-    global MAX_M
+    global MAX_M, COST_LIMIT
     MAX_M = ctx.pick(15, 21)
+    COST_LIMIT = ctx.pick(1.5e8, 1.5e9)
     maxd = ctx.pick(4, 6)
     insts = c06.load_replay(ctx, select(ctx))
     results = c06.run_polar(ctx, insts)
@@ -291,12 +341,15 @@ def run(ctx):
         label = c06.label_of(inst)
         st = inst["status"]
         stat[st.split(":")[0]] = stat.get(st.split(":")[0], 0) + 1
-        if st == "skipped" or st.startswith("unsupported"):
+        if st == "skipped" or st.startswith("unsupported") or st == "undecided-timeout":
             continue
         ctx.count({"i": label, "g": inst.get("goals")}, nontrivial=len(inst["K"]) > 0)
         ctx.coverage["obligations"] += 1
         if st == "accepted":
             ctx.coverage["discharged"] += 1
+            dk = f"goals={inst['k']},D={inst['D']}"
+            ctx.coverage.setdefault("degree_histogram", {})
+            ctx.coverage["degree_histogram"][dk] = ctx.coverage["degree_histogram"].get(dk, 0) + 1
             ctx.sample({"input": label, "reported_basis": inst["basis_str"], "degree_bound": inst["D"], "monomials": len(inst["Ms"]),
                         "sample_points": inst["N"], "kernel_dimension": len(inst["K"]),
                         "validator": "every relation of degree <= D lies in the ideal of the reported basis" if inst["K"] else
